@@ -354,7 +354,7 @@ def cli_histories(ctx, name, trace_module, runs, meta="", count=None, locs=("PEN
         jp = "%s.%s.json" % (base, r["tag"])
         res = cli.run_proc(["-c", base + ".csv", "-l", locs[n % len(locs)], "--json", jp] + r.get("argv", []), tmp)
         rec = {"case": n, "tag": r["tag"], "json": jp, "exit": res["exit"] if isinstance(res["exit"], int) else -1}
-        for k in ("kexp", "area", "lm"):
+        for k in ("kexp", "area", "lm", "run"):
             if k in r:
                 rec[k] = r[k]
         return rec
@@ -686,6 +686,15 @@ def p_C11(ctx):
             c2["runs"] = [{"tag": "base"}, {"tag": "s1_64", "scale": [1, 64]}, {"tag": "s3_1", "scale": [3, 1]}]
             yield c2
     ctx.replay(add15(stride(vlib.mc_cases(st15), 173 if ctx.quick else 8, ctx.seed % 173 if ctx.quick else 0)), "dhw-mixes", "Trace_C11")
+    # the area histories made with the real program: areas with three and more decimals (100 m2 times 1/64, 1/1024, 3/7 ...)
+    # given with -a; the per-m2 results of the --json document are divided by exactly that factor
+    def arun(tag, a_txt, n, d, area):
+        return {"tag": tag, "argv": ["-a", a_txt], "area": area, "kexp": [0, 1], "lm": False, "run": {"tag": tag, "areamul": [n, d]}}
+    cli_histories(ctx, "areas", "Trace_C11",
+                  [{"tag": "base", "argv": ["-a", "100"], "area": [100, 1], "kexp": [0, 1], "lm": False, "run": {"tag": "base"}},
+                   arun("a1_64", "1.5625", 1, 64, [25, 16]), arun("a1_1024", "0.09765625", 1, 1024, [25, 256]),
+                   arun("a2_1", "200", 2, 1, [200, 1]), arun("a1_8", "12.5", 1, 8, [25, 2]), arun("a3_1000", "0.3", 3, 1000, [3, 10])],
+                  count=12 if ctx.quick else 200)
     ctx.nontrivial = set(range(ctx.ncases))
     ctx.assumptions = [TOL_NOTE, TRUST, "bit-exact scaling for powers of two is not claimed (hash-map summation order differs between runs)", "scalings that take a non-zero value below 0.01 kWh are outside the quantifier and are skipped by the harness",
                        "model level: MC_C09!CheckLayout (ScaleInt) exactly on the lattice"]
@@ -766,6 +775,18 @@ def p_C05(ctx):
             yield {"src": {"comps": comps}, "meta": [["CTE_NOTA", txt], ["Otra", txt]], "atoms": c["atoms"],
                    "parse_log": True, "parse_only": True, "reps": 1}
     ctx.replay(strings(), "strings", "Trace_C05", keep=lambda c: {"atoms": c["atoms"], "src": c["src"]})
+    # files the program wrote and their user edited: DECLARED production lines that carry the comment the library gives
+    # to the completions it generates ("@completion" is written out as that text) - they are declared lines all the
+    # same: kept as they are, and the completion is what is still uncovered
+    def edited_files():
+        P = lambda i, src, v, cm: {"kind": "PROD", "id": i, "cr": "-", "srv": "-", "src": src, "v": v, "cm": cm}
+        U = lambda i, cr, srv, v: {"kind": "USED", "id": i, "cr": cr, "srv": srv, "src": "-", "v": v, "cm": ""}
+        for cr in ("EAMBIENTE", "TERMOSOLAR"):
+            for prod in ([20, 35], [30, 30], [0, 5], [50, 50]):
+                for extra in ([], [P(2, cr, [4, 4], "@completion")]):
+                    comps = [U(1, cr, "CAL", [30, 30]), U(1, "ELECTRICIDAD", "CAL", [10, 10]), P(1, cr, prod, "@completion")] + extra
+                    yield {"name": "edited-file", "src": {"comps": comps}, "parse_log": True, "parse_only": True, "reps": 2}
+    ctx.replay(edited_files(), "edited-files", "Trace_C05")
     ctx.replay(more(file_cases(None)), "files", "Trace_C05")
     ctx.replay(more(rnd(ctx, 300, 10000, None, integer=True, aux=True)), "random", "Trace_C05")
     ctx.extra.update(sched_stats(ctx))
@@ -824,6 +845,33 @@ def p_C07(ctx):
     if ctx.quick:
         st2 = ctx.mc("MC_C07", "MC_C07_dup.cfg")
         ctx.replay(c07_cases(st2, 8, ctx.seed), "dup", "Trace_C07")
+    # history  Prepare ; Edit ; Prepare: sets the library has prepared (complete: nothing is left to add) are edited - a
+    # factor fixed by the method gets another value, a fuel line that is not a grid factor is appended - and prepared
+    # again: the fixed factors are forced again and the unusable set is refused (Factors!FromList does not care
+    # whether its input was prepared before)
+    first = ctx.last_trace if not ctx.quick else os.path.join(WORK, "run", ctx.pid, "subsets.ndjson")
+    def edited():
+        k = 0
+        for line in open(first):
+            e = json.loads(line)
+            if e.get("ev") != "Prepare" or not e["out"].get("ok"):
+                continue
+            k += 1
+            if k % (11 if ctx.quick else 23) != ctx.seed % 11:
+                continue
+            lst = e["out"]["list"]
+            forced = [i for i, f in enumerate(lst) if f["dest"] == "SUMINISTRO" and f["step"] == "A" and
+                      ((f["cr"] in ("EAMBIENTE", "TERMOSOLAR")) or (f["cr"] == "ELECTRICIDAD" and f["src"] == "INSITU"))]
+            if forced:
+                l2 = json.loads(json.dumps(lst))
+                l2[forced[k % len(forced)]]["m"] = [900, 100, 50]
+                yield {"fac": {"mode": "str", "lines": l2}, "prepare_log": True, "prepare_only": True, "name": "prepared-then-edited"}
+            crs = {f["cr"] for f in lst}
+            extra = next((c for c in ("BIOMASA", "GASOLEO", "CARBON") if c not in crs), None)
+            if extra:
+                l3 = json.loads(json.dumps(lst)) + [{"cr": extra, "src": "INSITU", "dest": "SUMINISTRO", "step": "A", "m": [300, 400, 500]}]
+                yield {"fac": {"mode": "str", "lines": l3}, "prepare_log": True, "prepare_only": True, "name": "prepared-then-extended"}
+    ctx.replay(edited(), "edited", "Trace_C07")
     locs = []
     for loc in ("PENINSULA", "BALEARES", "CANARIAS", "CEUTAMELILLA"):
         for r1 in (None, [501, 601, 701]):
@@ -1094,6 +1142,18 @@ def p_C17(ctx):
                     c2["runs"] = [{"tag": tag, "mul": k}]
                     yield c2
     ctx.replay(rend(latc), "lattice", "Trace_C17")
+    # large buildings with five services (sums of many f32 terms of some 1e5 - 1e6 kWh): every printed total is the number
+    # the result holds, to the hundredth, and the same on every rendering
+    def many_services():
+        import random
+        r = random.Random(ctx.seed + 17)
+        for i in range(8 if ctx.quick else 200):
+            comps = [{"kind": "USED", "id": k, "cr": ("ELECTRICIDAD", "GASNATURAL")[k % 2], "srv": srv, "src": "-",
+                      "v": [round(r.uniform(1.0e5, 9.0e5), 2)], "cm": ""} for k, srv in enumerate(("CAL", "REF", "ACS", "VEN", "ILU"))]
+            comps.append({"kind": "PROD", "id": 7, "cr": "-", "srv": "-", "src": "EL_INSITU", "v": [round(r.uniform(1.0e5, 5.0e5), 2)], "cm": ""})
+            yield {"name": "many-services", "src": {"comps": comps}, "fac": {"mode": "loc", "loc": "PENINSULA"}, "kexp": [1, 2], "area": [1, 1], "lm": False,
+                   "render": True, "runs": runs}
+    ctx.replay(many_services(), "many-services", "Trace_C17")
     ctx.replay(rend(rnd(ctx, 40, 2000, None, aux=True)), "random", "Trace_C17")
     # DHW supply mixes of MC_C15 (the additional indicator of the report: a fraction that is exactly 0, exactly 1,
     # in between, or an error shown as a dash)
@@ -1367,16 +1427,24 @@ def p_C15(ctx):
             c.update({"fac": fac, "kexp": [0, 1], "area": [1, 1], "lm": False, "runs": runs})
             yield c
     def select(cs):
-        # quick tier: one mix in 29, but one in 5 of the mixes that have a rare dimension (idle DHW electricity line,
-        # tagged heat pump of another service, two-fuel cogenerator) - they are few and would otherwise be skipped
+        # quick tier: one mix in 29, but one in 12 of the mixes that have a flagged dimension (idle DHW electricity line,
+        # tagged heat pump of another service, two-fuel cogenerator, second biomass boiler, other demands declared first)
         k = r = 0
         for c in cs:
             rare = c.pop("rare", False)
             if not ctx.quick:
-                yield c
+                # thorough tier: one in three of the mixes with a flagged dimension (second boiler, other services'
+                # demands, idle electricity line ...), every other one of the rest - the family has grown to several
+                # hundred thousand mixes and each is evaluated nine times
+                if rare:
+                    r += 1
+                else:
+                    k += 1
+                if (rare and r % 3 == 0) or (not rare and k % 2 == 0):
+                    yield c
             elif rare:
                 r += 1
-                if r % 5 == ctx.seed % 5:
+                if r % 12 == ctx.seed % 12:
                     yield c
             else:
                 k += 1
